@@ -255,16 +255,16 @@ func (c *RawClient) buildRequest(op *Op, withAuth bool, attempt int) ([]byte, [1
 		}
 		for _, p := range ps {
 			a := c.peerAddr(p)
-			body = append(body, aPeer(a.IP, a.Port))
+			body = append(body, peerAttr(op, a.IP, a.Port))
 		}
 	case "chanbind":
 		mt = stun.NewType(stun.MethodChannelBind, stun.ClassRequest)
 		a := c.peerAddr(op.A.Peer)
-		body = append(body, aChannel(uint16(op.A.Chan)), aPeer(a.IP, a.Port))
+		body = append(body, aChannel(uint16(op.A.Chan)), peerAttr(op, a.IP, a.Port))
 	case "connect":
 		mt = stun.NewType(methodConnect, stun.ClassRequest)
 		a := c.peerAddr(op.A.Peer)
-		body = append(body, aPeer(a.IP, a.Port))
+		body = append(body, peerAttr(op, a.IP, a.Port))
 	case "weird":
 		// a properly authenticated request of method op.A.S whose body is exactly the raw
 		// attributes of op.A.Raw ("tttt:hex;tttt:hex"): what the handlers parse after the
@@ -398,7 +398,7 @@ func (c *RawClient) Do(op *Op) {
 			p = p[:65400] // the STUN length field is 16 bits
 		}
 		a := c.peerAddr(op.A.Peer)
-		setters := []stun.Setter{stun.NewTransactionIDSetter(c.newTID(op, 0)), stun.NewType(stun.MethodSend, stun.ClassIndication), aPeer(a.IP, a.Port), aData(p)}
+		setters := []stun.Setter{stun.NewTransactionIDSetter(c.newTID(op, 0)), stun.NewType(stun.MethodSend, stun.ClassIndication), peerAttr(op, a.IP, a.Port), aData(p)}
 		if hasFlag(op, "dontfrag") {
 			setters = append(setters, rawAttr{attrDontFragment, nil})
 		}
